@@ -147,14 +147,14 @@ class ClassInfo:
 
 
 class Module:
-    def __init__(self, name, path, relpath, source):
+    def __init__(self, name, path, relpath, source, sigs=None):
         self.name = name
         self.path = path
         self.relpath = relpath
         self.source = source
         from .normalize import normalize_module
         self.renamed = {}        # function -> {current local: reference local} applied by the alpha-normalisation
-        self.tree = normalize_module(ast.parse(source, filename=path), name, self.renamed)
+        self.tree = normalize_module(ast.parse(source, filename=path), name, self.renamed, sigs)
         self.functions = {}
         self.classes = {}
         self.imports = {}        # local name -> ('module', modname) | ('attr', modname, attr)
@@ -216,6 +216,7 @@ class Program:
         root = os.path.join(self.repo, PKG)
         if not os.path.isdir(root):
             raise AnalysisError(f'package directory not found: {root}')
+        pending = []
         for dirpath, dirnames, filenames in os.walk(root):
             dirnames[:] = sorted(d for d in dirnames if d != '__pycache__')
             rel = os.path.relpath(dirpath, self.repo)
@@ -234,10 +235,19 @@ class Program:
                 name = '.'.join(modparts)
                 with open(path, encoding='utf-8') as fp:
                     src = fp.read()
-                try:
-                    self.modules[name] = Module(name, path, os.path.relpath(path, self.repo), src)
-                except SyntaxError as e:
-                    raise AnalysisError(f'cannot parse {path}: {e}')
+                pending.append((name, path, src))
+        # the calling convention of the package's own functions (for the canonical argument style, N6) is read
+        # from all modules before any of them is normalised
+        from .normalize import build_signature_index
+        try:
+            sigs = build_signature_index([ast.parse(src, filename=path) for _, path, src in pending])
+        except SyntaxError as e:
+            raise AnalysisError(f'cannot parse: {e}')
+        for name, path, src in pending:
+            try:
+                self.modules[name] = Module(name, path, os.path.relpath(path, self.repo), src, sigs)
+            except SyntaxError as e:
+                raise AnalysisError(f'cannot parse {path}: {e}')
 
     def digest(self):
         h = hashlib.sha256()
